@@ -14,13 +14,13 @@
                               _parent_loops, _unversioned_parents, _improper_versioning,
                               _executability_conflicts, _overwrite_conflicts, _duplicate_entries,
                               _parent_type_conflicts, _new_entry, new_file, new_directory,
-                              _get_potential_orphans (default policy), _affected_ids, _get_file_id_maps,
-                              iter_changes (the changed_content bit)},
+                              _get_potential_orphans (default policy)},
                               DiskTreeTransform.{create_file, create_directory, cancel_creation},
                               InventoryTreeTransform.{version_file, cancel_versioning, _duplicate_ids,
                               find_raw_conflicts, apply (node level), _inventory_altered,
                               _generate_inventory_delta}, InventoryPreviewTree.{path2id, extras,
-                              _make_inv_entries, iter_entries_by_dir, get_file, _content_change}
+                              _make_inv_entries, iter_entries_by_dir, get_file}
+   (the code as of 4df7934: the preview repairs 2ecf5bb, 33f6199 and the resolver repair 4df7934 included)
    Conventions: trans id k is the Python string "new-k"; every base-tree path has a trans id (entry i of
    [base] has trans id i, entry 0 is the root); ROOT_PARENT is [None] in [option tid]; python dicts are
    insertion-ordered association lists; python sets are duplicate-free lists (only used order-free).
@@ -369,6 +369,36 @@ Definition raw_conflicts_list (t : tt) : list conflict :=
 Definition raw_conflicts (t : tt) : res (list conflict) :=
   if add_tree_children_fails t then Er "NoSuchFile" else Ok (raw_conflicts_list t).
 
+(* ---- paths *)
+Section PathVia.
+  Context (parent : nat -> option (option nat * name)).   (* None: broken; (None, _): this is the root *)
+  Fixpoint path_via (fuel : nat) (x : nat) : option (list name) :=
+    match fuel with
+    | 0 => None
+    | S f => match parent x with
+             | None => None
+             | Some (None, _) => Some []
+             | Some (Some p, n) => option_map (fun pp => pp ++ [n]) (path_via f p)
+             end
+    end.
+End PathVia.
+
+(* FinalPaths.get_path *)
+Definition final_path (t : tt) (x : tid) : option (list name) :=
+  path_via (fun y => if Nat.eqb y 0 then Some (None, [])
+                     else match final_parent t y with
+                          | Some p => Some (Some p, final_name t y)
+                          | None => None
+                          end) (S (next_id t)) x.
+Definition base_path (x : tid) : option (list name) :=
+  path_via (fun y => if Nat.eqb y 0 then Some (None, [])
+                     else match nth_error base y with
+                          | Some b => Some (Some (b_parent b), b_name b)
+                          | None => None
+                          end) (S (List.length base)) x.
+(* a fabricated file id (gen_file_id: name-timestamp-random); the harness maps it to 1000 + trans id *)
+Definition gen_fid (x : tid) : fid := 1000 + x.
+
 (* ---- resolvers.  A yielded conflict tuple is (type code, message code, trans ids) *)
 Definition rc := list Z.
 Definition zt (x : tid) : Z := Z.of_nat x.
@@ -412,8 +442,14 @@ Definition resolve_one (c : conflict) (t : tt) : res (tt * list rc) :=
       else bind (op_create KDir [] x t) (fun t' => Ok (t', [[4; 5; zt x]%Z]))
   | CUnversionedParent x =>
       match tree_file_id x with
-      | None => Er "ValueError"
       | Some f => bind (op_version_file x f t) (fun t' => Ok (t', [[1; 6; zt x]%Z]))
+      | None =>
+          (* since 4df7934: version_file(source=(tree, None)) fabricates an id from FinalPaths.get_path,
+             which recurses for ever when x is in a parent loop (loops are resolved later in the pass) *)
+          match final_path t x with
+          | None => Er "RecursionError"
+          | Some _ => bind (op_version_file x (gen_fid x) t) (fun t' => Ok (t', [[1; 6; zt x]%Z]))
+          end
       end
   | CNonDirParent p =>
       match final_parent t p with
@@ -461,33 +497,6 @@ Fixpoint resolve (fuel : nat) (t : tt) (acc : list rc) : outcome :=
   end.
 Definition resolve_conflicts (t : tt) : outcome := resolve 10 t [].
 
-(* ---- paths *)
-Section PathVia.
-  Context (parent : nat -> option (option nat * name)).   (* None: broken; (None, _): this is the root *)
-  Fixpoint path_via (fuel : nat) (x : nat) : option (list name) :=
-    match fuel with
-    | 0 => None
-    | S f => match parent x with
-             | None => None
-             | Some (None, _) => Some []
-             | Some (Some p, n) => option_map (fun pp => pp ++ [n]) (path_via f p)
-             end
-    end.
-End PathVia.
-
-(* FinalPaths.get_path *)
-Definition final_path (t : tt) (x : tid) : option (list name) :=
-  path_via (fun y => if Nat.eqb y 0 then Some (None, [])
-                     else match final_parent t y with
-                          | Some p => Some (Some p, final_name t y)
-                          | None => None
-                          end) (S (next_id t)) x.
-Definition base_path (x : tid) : option (list name) :=
-  path_via (fun y => if Nat.eqb y 0 then Some (None, [])
-                     else match nth_error base y with
-                          | Some b => Some (Some (b_parent b), b_name b)
-                          | None => None
-                          end) (S (List.length base)) x.
 Fixpoint path_eqb (a b : list name) : bool :=
   match a, b with
   | [], [] => true
@@ -496,78 +505,55 @@ Fixpoint path_eqb (a b : list name) : bool :=
   end.
 Definition opath_eqb (a : option (list name)) (b : list name) : bool :=
   match a with Some p => path_eqb p b | None => false end.
-(* the base node at a path *)
-Definition base_at (p : list name) : option bnode :=
-  match find (fun x => opath_eqb (base_path x) p) (seq 0 (List.length base)) with
-  | Some x => nth_error base x
-  | None => None
-  end.
-
 (* ---- the preview tree *)
 (* PreviewTree._path2trans_id: descend from the root through _all_children (= every trans id whose final
    parent is the current one), first child with the right final name *)
 Definition all_children (t : tt) (p : tid) : list tid :=
   filter (fun x => onat_eqb (final_parent t x) (Some p)) (seq 0 (next_id t)).
 Inductive lookup := LNone | LAmbiguous | LOne (y : tid).
-(* more than one child with the name: the answer of the code depends on the iteration order of a set *)
+(* a trans id that is neither on disk nor versioned in the end *)
+Definition dead (t : tt) (x : tid) : bool :=
+  (match final_kind t x with None => true | Some _ => false end) && negb (versioned t x).
+(* PreviewTree._path2trans_id (since 33f6199): the first LIVE child with the name; a dead one only when
+   nothing else matches.  More than one candidate: the answer of the code depends on the iteration order
+   of a set (among dead candidates of the last segment the choice is unobservable). *)
 Fixpoint path2tid (t : tt) (segs : list name) (cur : tid) : lookup :=
   match segs with
   | [] => LOne cur
-  | s :: segs' => match filter (fun c => bytes_eqb (final_name t c) s) (all_children t cur) with
-                  | [] => LNone
-                  | [c] => path2tid t segs' c
-                  | _ => LAmbiguous
-                  end
-  end.
-
-Definition affected (t : tt) : list tid :=
-  filter (fun x => memn x (removed_id t) || ahas x (new_id t) || memn x (removed_contents t)
-                   || ahas x (new_contents t) || ahas x (new_exec t) || ahas x (new_name t)
-                   || ahas x (new_parent t)) (seq 0 (next_id t)).
-(* iter_changes: changed_content of the change record of file id f (false when there is none) *)
-Definition content_change (t : tt) (f : fid) : bool :=
-  let from := find (fun x => onat_eqb (tree_file_id x) (Some f)) (affected t) in
-  let to := find (fun x => onat_eqb (final_file_id t x) (Some f)) (affected t) in
-  match from, to with
-  | None, None => false
-  | _, _ =>
-      let from' := match from with Some x => x | None => match to with Some y => y | None => 0 end end in
-      let to' := match to with Some y => y | None => from' end in
-      let from_kind := tree_kind from' in
-      let to_kind := final_kind t to' in
-      negb (okind_eqb from_kind to_kind)
-      || (okind_eqb to_kind (Some KFile) && (negb (Nat.eqb to' from') || ahas to' (new_contents t)))
+  | s :: segs' =>
+      let m := filter (fun c => bytes_eqb (final_name t c) s) (all_children t cur) in
+      match filter (fun c => negb (dead t c)) m with
+      | [c] => path2tid t segs' c
+      | _ :: _ :: _ => LAmbiguous
+      | [] => match m with
+              | [] => LNone
+              | [c] => path2tid t segs' c
+              | _ => match segs' with [] => LNone | _ => LAmbiguous end
+              end
+      end
   end.
 
 Definition unreadable : list Z := [(-2)%Z].
-(* InventoryPreviewTree.get_file(path).read() for the trans id y the path resolves to *)
-Definition preview_content (t : tt) (y : tid) (p : list name) : list Z :=
-  if match final_file_id t y with Some f => content_change t f | None => false end
-  then match aget y (new_contents t) with
-       | Some (KFile, c) => map Z.of_N c
-       | _ => unreadable
-       end
-  else match base_at p with
-       | Some b => match b_kind b with KFile => map Z.of_N (b_content b) | KDir => unreadable end
-       | None => unreadable
-       end.
-(* PreviewTree.is_executable(path) *)
-Fixpoint proper_prefixes {A} (l : list A) : list (list A) :=
-  match l with
-  | [] => []
-  | x :: l' => [] :: map (cons x) (proper_prefixes l')
+(* InventoryPreviewTree.get_file(path).read() (since 2ecf5bb) for the trans id y the path resolves to:
+   new contents from limbo, otherwise the original tree's file at the trans id's OLD path *)
+Definition preview_content (t : tt) (y : tid) : list Z :=
+  match aget y (new_contents t) with
+  | Some (KFile, c) => map Z.of_N c
+  | Some (KDir, _) => unreadable
+  | None => if memn y (removed_contents t) then unreadable
+            else match nth_error base y with
+                 | Some b => match b_kind b with KFile => map Z.of_N (b_content b) | KDir => unreadable end
+                 | None => unreadable
+                 end
   end.
-(* 0 / 1, or 2: NotADirectoryError escapes (a proper prefix of the path is a file of the base tree) *)
-Definition preview_exec (t : tt) (y : tid) (p : list name) : Z :=
+(* PreviewTree.is_executable(path) (since 2ecf5bb): _new_executability, else the mode the entry has in the
+   original tree at its old path *)
+Definition preview_exec (t : tt) (y : tid) : bool :=
   match aget y (new_exec t) with
-  | Some b => if b then 1%Z else 0%Z
-  | None => match base_at p with
-            | Some b => match b_kind b with KFile => if b_exec b then 1%Z else 0%Z | KDir => 0%Z end
-            | None => if existsb (fun q => match base_at q with
-                                           | Some b => kind_eqb (b_kind b) KFile
-                                           | None => false
-                                           end) (proper_prefixes p)
-                      then 2%Z else 0%Z
+  | Some b => b
+  | None => match nth_error base y with
+            | Some b => match b_kind b with KFile => b_exec b | KDir => false end
+            | None => false
             end
   end.
 
@@ -600,8 +586,8 @@ Definition preview_row (t : tt) (p : list name) : list (list Z) :=
       let f := final_file_id t y in
       match k, f with
       | None, None => []
-      | _, _ => [mkrow p k (match k with Some KFile => preview_exec t y p | _ => 0%Z end) f
-                       (match k with Some KFile => preview_content t y p | _ => [] end)]
+      | _, _ => [mkrow p k (match k with Some KFile => zbool (preview_exec t y) | _ => 0%Z end) f
+                       (match k with Some KFile => preview_content t y | _ => [] end)]
       end
   end.
 Fixpoint dedup_rows (l : list (list Z)) : list (list Z) :=
